@@ -45,6 +45,7 @@ TARGETS = {
     "c13_stokes": ("mpi", ["harness/c13_stokes.cpp"], True),
     "c13_tm":     ("mpi_tm", ["harness/c13_tm.cpp"], True),
     "c13_stokes_crrt": ("mpi", ["harness/c13_stokes_crrt.cpp"], True),
+    "c13_stokes_mg": ("mpi", ["harness/c13_stokes_mg.cpp"], True),
     "c05_streams": ("nompi", ["harness/c05_streams.cpp"], False),
     "c05_checkpoint": ("mpi", ["harness/c05_checkpoint.cpp"], True),
     "c11_mesh":   ("nompi", ["harness/c11_mesh.cpp"], False),
@@ -54,7 +55,7 @@ GUARD_TARGETS = ["c11_mesh.guard", "c11_pmap.guard", "c05_streams.guard"]
 PROPERTY_TARGETS = {
     "C17": ["c17_fence", "c17_asm"],
     "C12": ["c12_domain"],
-    "C13": ["c13_scalar", "c13_app", "c13_app_neumann", "c13_q2", "c13_dg", "c13_blocked", "c13_stokes", "c13_tm", "c13_stokes_crrt"],
+    "C13": ["c13_scalar", "c13_app", "c13_app_neumann", "c13_q2", "c13_dg", "c13_blocked", "c13_stokes", "c13_tm", "c13_stokes_crrt", "c13_stokes_mg"],
     "C05": ["c05_streams", "c05_checkpoint", "c05_streams.guard"],
     "C11": ["c11_mesh", "c11_pmap", "c11_mesh.guard", "c11_pmap.guard"],
     "SIMMPI": ["simmpi_selftest"],
